@@ -9,6 +9,7 @@ suite (labelled testing in the evidence). Theorems that depend on it carry the s
 -/
 import SeliumModel.Lemmas.Total
 import SeliumModel.Client.Codecs
+import SeliumModel.Gen.Compression
 
 namespace Selium.Client
 open Selium Selium.Bincode Selium.Wire
@@ -94,6 +95,49 @@ theorem c14_batch_composition_uncompressed {α} (c : Codec α) (good : α → Pr
     ∃ w, sendBatch c noCompression items = .ok w ∧ recvBatch c noCompression w = .ok items :=
   c14_batch_composition_partial c good hc noCompression noCompression_lossless items hi hn hsz
 
+/-! ### which library halves selium pairs (extracted from `standard/src/compression/*` on every run) -/
+
+open Selium.Gen.Compression in
+/-- flate2 as trusted: per container format an encoder / decoder pair that invert each other when the encoder
+    is finished and the decoder reads to the end (what `deflateEncoderFinished` / `deflateDecoderReadsAll` say
+    the code does). Nothing is assumed about a decoder fed the *other* format. -/
+structure Flate where
+  enc : Format → Bytes → Bytes
+  dec : Format → Bytes → Res Bytes
+  inv : ∀ f b, dec f (enc f b) = .ok b
+
+open Selium.Gen.Compression in
+/-- `DeflateComp { library := lc }` on the sending side with `DeflateDecomp { library := ld }` on the receiving
+    side, the format of each half being what the source's `match self.library` selects -/
+def deflatePair (F : Flate) (lc ld : Library) : Compressor where
+  compress b := .ok (F.enc (deflateCompFormat lc) b)
+  decompress c := F.dec (deflateDecompFormat ld) c
+
+open Selium.Gen.Compression in
+/-- The two halves select the same container format for the same library, the named constructors of the two
+    halves agree, every encoder is finished / flushed before its bytes are taken and every decoder reads the
+    whole input (all facts regenerated from the source). -/
+theorem c14_library_halves_paired :
+    (∀ l, deflateCompFormat l = deflateDecompFormat l) ∧
+    deflateCompCtor_gzip = deflateDecompCtor_gzip ∧ deflateCompCtor_zlib = deflateDecompCtor_zlib ∧
+    deflateCompCtor_gzip ≠ deflateCompCtor_zlib ∧
+    deflateEncoderFinished = true ∧ deflateDecoderReadsAll = true ∧
+    zstdCompWhole = true ∧ zstdDecompWhole = true ∧ lz4CompWhole = true ∧ lz4DecompWhole = true ∧
+    brotliCompWhole = true ∧ brotliDecompWhole = true := by
+  refine ⟨fun l => by cases l <;> rfl, ?_⟩
+  decide
+
+open Selium.Gen.Compression in
+/-- Hence selium's DEFLATE pair is lossless for either library given only flate2's own per-format inverse:
+    the hypothesis `Compressor.Lossless` of the composition theorems is discharged for gzip and zlib up to the
+    library. -/
+theorem c14_deflate_lossless_partial (F : Flate) (l : Library) : (deflatePair F l l).Lossless := by
+  intro b
+  refine ⟨F.enc (deflateCompFormat l) b, rfl, ?_⟩
+  show F.dec (deflateDecompFormat l) (F.enc (deflateCompFormat l) b) = .ok b
+  rw [← c14_library_halves_paired.1 l]
+  exact F.inv _ b
+
 /-! Non-vacuity -/
 example : validUtf8 [0xe6, 0x97, 0xa5, 0x41] = true := by decide
 example : stringCodec.decode [0xc0, 0x80] = .err "utf8" := by decide
@@ -114,3 +158,5 @@ end Selium.Client
 #print axioms Selium.Client.mapRes_lossless
 #print axioms Selium.Client.c14_batch_composition_partial
 #print axioms Selium.Client.c14_batch_composition_uncompressed
+#print axioms Selium.Client.c14_library_halves_paired
+#print axioms Selium.Client.c14_deflate_lossless_partial
